@@ -26,6 +26,20 @@ git apply $D/patch.diff || { echo "PATCH-DOES-NOT-APPLY"; exit 2; }
 go build ./... || { echo "MUTANT-DOES-NOT-BUILD"; exit 2; }
 go test -vet=off -count=1 ./... 2>&1 | grep -v "no test files" | grep -v "^ok" | head -5
 echo "existing tests with mutant: rc=${PIPESTATUS[0]}"
+# the demonstration again, in this fresh worktree (the seeders' worktrees share one stash and have been mixed up before)
+if [ -f $D/demo_test.go ]; then
+  pdir=$(head -1 $D/demo_test.go | sed -n 's#^// place in: *##p' | sed 's#^\./##; s#/*$##')
+  cmd=$(grep 'go test' $D/README.md | grep -- '-run' | head -1 | sed -e 's/.*\(go test[^`]*\).*/\1/' -e 's/`.*//' -e 's/[[:space:]]*$//')
+  if [ -n "$pdir" ] && [ -d "$W/$pdir" ] && [ -n "$cmd" ]; then
+    cp $D/demo_test.go $W/$pdir/demo_test.go
+    eval "$cmd" > /tmp/demo2_$ID.with 2>&1; a=$?
+    git apply -R $D/patch.diff; eval "$cmd" > /tmp/demo2_$ID.without 2>&1; b=$?; git apply $D/patch.diff
+    rm -f $W/$pdir/demo_test.go
+    echo "demo in fresh worktree [$cmd]: with patch rc=$a (want !=0), without rc=$b (want 0)"
+  else
+    echo "demo in fresh worktree: cannot place (dir='$pdir' cmd='$cmd')"
+  fi
+fi
 cd /verif
 rm -f /verif/replays/$ID-*.json
 if [ -n "${SCRATCH:-}" ]; then
